@@ -272,6 +272,10 @@ pub mod shim {
     pub uninterp spec fn string_bytes(s: String) -> Seq<u8>;
     /// Display of an address (uninterpreted; assumed free of CR/LF by the contracts that need it)
     pub uninterp spec fn display_ip(ip: IpAddr) -> Seq<u8>;
+    /// Display of an address is short: at most 45 characters (an IPv4-mapped IPv6 address written in full), at least 2 ("::")
+    #[verifier::external_body]
+    pub broadcast proof fn axiom_display_ip_len(ip: IpAddr)
+        ensures 2 <= (#[trigger] display_ip(ip)).len() <= 45 {}
     pub trait FmtDisp { spec fn disp(&self) -> Seq<u8>; }
     impl FmtDisp for usize { open spec fn disp(&self) -> Seq<u8> { dec(*self as nat) } }
     impl FmtDisp for u16 { open spec fn disp(&self) -> Seq<u8> { dec(*self as nat) } }
@@ -289,6 +293,12 @@ pub mod shim {
         #[verifier::external_body] pub fn as_bytes(&self) -> (r: &[u8]) ensures r@ == self.bytes@ { unimplemented!() }
         pub fn len(&self) -> (r: usize) ensures r == self.bytes@.len() { self.bytes.len() }
     }
+    /// rule R31: a String built from a str whose UTF-8 bytes are a (`"lit".to_string()`, `s.to_string()` for s: &str)
+    #[verifier::external_body]
+    pub fn str_lit(a: &[u8]) -> (r: FmtString) ensures r.bytes@ == a@ { unimplemented!() }
+    /// rule R31: a string-literal match pattern: the scrutinee equals the literal byte for byte
+    #[verifier::external_body]
+    pub fn str_is(s: &FmtString, a: &[u8]) -> (r: bool) ensures r == (s.bytes@ == a@) { unimplemented!() }
     /// a literal template piece as a byte slice
     #[verifier::external_body]
     pub fn bs<const N: usize>(a: &[u8; N]) -> (r: &[u8]) ensures r@ == a@ { a }
